@@ -17,6 +17,7 @@ func checkC18(c *Ctx) {
 	r.Rule("R18.2", "replacement structure: under the privacy flag the loop over the known-path table tests HasPrefix(current, k) and rewrites the CURRENT value with that same k and its v; every later rewrite step (home directory, regexp table, /Volumes) also takes the current value as its subject, never the original argument; the value returned derives from the current value, or is the shorter relative path under IsAbs(current) and a strictly-shorter test")
 	r.Rule("R18.3", "no explicit failure: every slice expression in checkpath is justified by a dominating prefix/index test on the same string; no panic; no regexp compilation on the hardening path")
 	r.Rule("R18.4", "the home directory stays protected: checkpath rewrites the home prefix from the homeDir variable itself (not only through a table entry the public Remove/Reset functions can drop), under the privacy flag")
+	r.Rule("R18.6", "registrations are kept: AddKnownPathMapping stores knownPathMap[pathname] = repl on every path; RemoveKnownPathMapping deletes exactly the key given")
 	r.Rule("R18.5", "no memoisation: hardening is recomputed from the current flags and tables for every call: Source.Extract, Safety, SafetyFiles and checkpath store to no package-level state")
 	r.Assume("the for-all-strings claim (no protected prefix survives for any path and any iteration order of overlapping mappings) is NOT decided here: it needs reasoning about string values and map iteration orders")
 	for _, tags := range c.Configs([]string{""}, []string{"", "verbose"}) {
@@ -30,6 +31,7 @@ func checkC18(c *Ctx) {
 			continue
 		}
 		c18Check(c, p, m)
+		registrationStores(c, p, m)
 	}
 	c.Floor["R18.1"] = 4
 	c.Floor["R18.2"] = 4
@@ -220,7 +222,9 @@ func c18Check(c *Ctx, p *Prog, m *Model) {
 						c2, ok := v.(*ssa.Call)
 						return ok && isBuiltinCall(c2, "len") && of(strip(c2.Common().Args[0]))
 					}
-					isRel := func(x ssa.Value) bool { return x == ssa.Value(ex) || func() bool { e2, ok := x.(*ssa.Extract); return ok && e2.Tuple == ex.Tuple && e2.Index == 0 }() }
+					isRel := func(x ssa.Value) bool {
+						return x == ssa.Value(ex) || func() bool { e2, ok := x.(*ssa.Extract); return ok && e2.Tuple == ex.Tuple && e2.Index == 0 }()
+					}
 					for _, g := range guardsOf(b) {
 						cond, neg := normCond(g.If.Cond)
 						truth := (g.Succ == 0) != neg
